@@ -58,7 +58,7 @@ class C08(vlib.Check):
             kind = rng.choice(KINDS)
             bits = rng.choice([1, 2, 8, 8, 64, 1024, 100, 99999, 2 ** 20, 2 ** 31, 2 ** 32])
             level = rng.choice([-1, 0, 5, 12])
-            keys = rng.choice([[], ["pi"], ["pf", "pb"], ["pi", "pf", "pb", "ps"]])
+            keys = rng.choice([[], ["pi"], ["pf", "pb"], ["pi", "pf", "pb", "ps"], ["_pi"], ["pi", "_pi", "__ps"]])
             nrows = rng.randint(1, 6)
             fps = [gen_fpin(rng, kind, bits, level, keys, none_names=True) for _ in range(nrows)]
             name_mode = rng.choice(["mixed", "all-str", "all-none", "dups"])
